@@ -41,7 +41,7 @@ pub fn b64url(data: &[u8]) -> String {
 
 /// the JSON text of a token for selector JSON `sel` (format documented in
 /// pagination.rs: version tag + page_start)
-fn token_json(v: &Value, sel: &Value) -> String {
+fn token_json(v: &Value, sel: &str) -> String {
     format!("{{\"v\":{v},\"page_start\":{sel}}}")
 }
 
@@ -274,6 +274,120 @@ impl SelGen for (u64, String, Option<bool>) {
     }
 }
 
+/// 128-bit values around and beyond the 64-bit range (IPv6-address-sized ids,
+/// nanosecond counters, ...)
+pub fn wide_u128(rng: &mut Rng) -> (u128, &'static str) {
+    match rng.below(9) {
+        0 => (0, "within-64"),
+        1 => (u64::MAX as u128, "u64-max"),
+        2 => (u64::MAX as u128 + 1, "u64-max+1"),
+        3 => (u128::MAX, "u128-max"),
+        4 => (u128::MAX - rng.below(1000) as u128, "near-u128-max"),
+        5 => (1u128 << (64 + rng.below(64)), "power-of-two-beyond-64"),
+        // an IPv6 address as an integer
+        6 => (0x2001_0db8_0000_0000_0000_0000_0000_0000u128 | rng.next() as u128, "ipv6-sized"),
+        7 => (((rng.next() as u128) << 64) | rng.next() as u128, "random-128"),
+        _ => (rng.next() as u128, "within-64"),
+    }
+}
+
+pub fn wide_i128(rng: &mut Rng) -> (i128, &'static str) {
+    match rng.below(9) {
+        0 => (-1, "within-64"),
+        1 => (i64::MIN as i128, "i64-min"),
+        2 => (i64::MIN as i128 - 1, "i64-min-1"),
+        3 => (i128::MIN, "i128-min"),
+        4 => (i128::MAX, "i128-max"),
+        5 => (u64::MAX as i128 + 1, "u64-max+1"),
+        6 => (-(1i128 << (64 + rng.below(63))), "negative-power-of-two-beyond-64"),
+        7 => ((((rng.next() as u128) << 64) | rng.next() as u128) as i128, "random-128"),
+        _ => (rng.next() as i64 as i128, "within-64"),
+    }
+}
+
+#[derive(Deserialize, Serialize, Debug, Clone, PartialEq)]
+pub struct SelWide {
+    pub id: u128,
+    pub offset: i128,
+    pub name: String,
+    pub more: Vec<u128>,
+    pub maybe: Option<i128>,
+}
+
+pub fn gen_wide(rng: &mut Rng) -> (SelWide, String) {
+    let (id, ic) = wide_u128(rng);
+    let (offset, oc) = wide_i128(rng);
+    let n = rng.usize(3);
+    let v = SelWide {
+        id,
+        offset,
+        name: any_string(rng).0.chars().take(12).collect(),
+        more: (0..n).map(|_| wide_u128(rng).0).collect(),
+        maybe: if rng.bool() { Some(wide_i128(rng).0) } else { None },
+    };
+    (v, format!("u128:{ic}|i128:{oc}"))
+}
+
+impl SelGen for SelWide {
+    const NAME: &'static str = "struct-128-bit-integers";
+    fn gen(rng: &mut Rng) -> (Self, String) {
+        gen_wide(rng)
+    }
+    fn wrong_shapes() -> Vec<Value> {
+        vec![
+            json!("s"),
+            json!(5),
+            json!({"id": "1", "offset": 1, "name": "", "more": [], "maybe": null}),
+            json!({"id": -1, "offset": 1, "name": "", "more": [], "maybe": null}),
+            json!({"id": 1, "offset": 1.5, "name": "", "more": [], "maybe": null}),
+            json!({"id": 1, "offset": 1, "name": "", "more": ["x"], "maybe": null}),
+            json!({"id": 1, "offset": 1, "name": ""}),
+        ]
+    }
+}
+
+impl SelGen for u128 {
+    const NAME: &'static str = "bare-u128";
+    fn gen(rng: &mut Rng) -> (Self, String) {
+        let (v, c) = wide_u128(rng);
+        (v, c.into())
+    }
+    fn wrong_shapes() -> Vec<Value> {
+        vec![json!("1"), json!(-1), json!(1.5), json!({}), json!(null), json!([1])]
+    }
+}
+
+#[derive(Deserialize, Serialize, Debug, Clone, PartialEq)]
+#[serde(rename_all = "snake_case")]
+pub enum SelWideEnum {
+    After(i128),
+    Between { lo: u128, hi: u128 },
+    Pair(u128, i128),
+}
+
+impl SelGen for SelWideEnum {
+    const NAME: &'static str = "enum-128-bit-integers";
+    fn gen(rng: &mut Rng) -> (Self, String) {
+        match rng.below(3) {
+            0 => {
+                let (v, c) = wide_i128(rng);
+                (SelWideEnum::After(v), format!("newtype|{c}"))
+            }
+            1 => {
+                let (lo, c) = wide_u128(rng);
+                (SelWideEnum::Between { lo, hi: wide_u128(rng).0 }, format!("struct|{c}"))
+            }
+            _ => {
+                let (a, c) = wide_u128(rng);
+                (SelWideEnum::Pair(a, wide_i128(rng).0), format!("tuple|{c}"))
+            }
+        }
+    }
+    fn wrong_shapes() -> Vec<Value> {
+        vec![json!(5), json!({}), json!("after"), json!({"after": "x"}), json!({"between": {"lo": 1}}), json!({"pair": [1]})]
+    }
+}
+
 // ------------------------------------------------------------- the two calls
 
 /// issue through the public surface
@@ -465,7 +579,8 @@ fn strict_refusal<S: SelGen>(rep: &mut Report, class: &str, sigkind: &str, query
 
 /// the definitely-malformed families built around a valid selector
 fn malformed_families<S: SelGen>(rep: &mut Report, rng: &mut Rng, sel: &S, tok: &str, ctx: &Value) {
-    let sel_json: Value = serde_json::to_value(sel).unwrap();
+    // JSON text, not a Value: a Value cannot hold integers beyond 64 bits
+    let sel_json: String = serde_json::to_string(sel).expect("round_trip checked that the selector can be written");
     let q = |t: &str| format!("page_token={}", pct(t.as_bytes()));
     let wit_for = |what: String| {
         let ctx = ctx.clone();
@@ -479,7 +594,7 @@ fn malformed_families<S: SelGen>(rep: &mut Report, rng: &mut Rng, sel: &S, tok: 
         }
     }
     // wrong shape
-    let base = serde_json::to_string(&sel_json).unwrap();
+    let base = sel_json.clone();
     let mut shapes: Vec<(String, String)> = vec![
         ("top-array".into(), "[]".into()),
         ("top-string".into(), "\"v1\"".into()),
@@ -489,7 +604,7 @@ fn malformed_families<S: SelGen>(rep: &mut Report, rng: &mut Rng, sel: &S, tok: 
         ("missing-version".into(), format!("{{\"page_start\":{base}}}")),
     ];
     for w in S::wrong_shapes() {
-        shapes.push(("page_start-wrong-type".into(), token_json(&json!("v1"), &w)));
+        shapes.push(("page_start-wrong-type".into(), token_json(&json!("v1"), &w.to_string())));
     }
     for (what, js) in shapes {
         let t = b64url(js.as_bytes());
@@ -755,10 +870,14 @@ const TYPES: &[TypeFn] = &[
     one_type::<SelEnum>,
     one_type::<SelFloat>,
     one_type::<(u64, String, Option<bool>)>,
+    one_type::<SelWide>,
+    one_type::<u128>,
+    one_type::<SelWideEnum>,
 ];
 
-pub const RULE_INPROC: &str = "selectors of 7 types (struct with any-Unicode string, numbers at extremes, nested struct/enum/option/vector, \
-     bare string, enum in 4 variant styles, floats, bare tuple) issued with ResultsPage::new and accepted with \
+pub const RULE_INPROC: &str = "selectors of 10 types (struct with any-Unicode string, numbers at extremes, nested struct/enum/option/vector, \
+     bare string, enum in 4 variant styles, floats, bare tuple, struct / bare / enum with u128 and i128 values around and beyond the 64-bit \
+     range) issued with ResultsPage::new and accepted with \
      serde_urlencoded::from_str::<PaginationParams>; token lengths swept over 496..=532 and far beyond; definitely-malformed families \
      (10 wrong versions, wrong shapes incl. per-type wrong page_start, base64 of non-JSON, foreign characters, empty, valid tokens stretched \
      beyond 512) must be refused; unclassed spellings and EVERY single-byte substitution/insertion/deletion of selected valid tokens must \
@@ -808,17 +927,132 @@ async fn h_page(
     Ok(HttpResponseOk(PageEcho { limit, which: which.to_string(), params, next_page: next.next_page }))
 }
 
+/// the selector the wide endpoint issues for first-page parameter `min = k`
+/// (the client computes the same value)
+pub fn wide_selector_for(seed: u64, k: u32) -> SelWide {
+    gen_wide(&mut Rng::derive(seed, "c14-live-wide", 0, k.into())).0
+}
+
+/// paginated endpoint whose page selector holds u128 / i128 values; the seed
+/// travels in the `prefix` scan parameter
+#[dropshot::endpoint { method = GET, path = "/c14/wide" }]
+async fn h_wide(
+    rqctx: RequestContext<C>,
+    q: Query<PaginationParams<Scan, SelWide>>,
+) -> Result<HttpResponseOk<PageEcho>, HttpError> {
+    let uid = vmon::api::uid_of(&rqctx);
+    rqctx.context().log.push("H_ENTER", uid, 0, "wide");
+    let p = q.into_inner();
+    let limit = rqctx.page_limit(&p)?.get();
+    let (which, params, next_sel) = match &p.page {
+        WhichPage::First(s) => {
+            let seed: u64 = s.prefix.as_deref().and_then(|x| x.parse().ok()).unwrap_or(0);
+            ("first", serde_json::to_string(s).unwrap_or_default(), wide_selector_for(seed, s.min.unwrap_or(0)))
+        }
+        // resuming: hand the same selector out again
+        WhichPage::Next(s) => ("next", serde_json::to_string(s).unwrap_or_default(), s.clone()),
+    };
+    let next = ResultsPage::new(vec![uid], &Scan::default(), |_item: &u64, _s: &Scan| next_sel.clone())?;
+    Ok(HttpResponseOk(PageEcho { limit, which: which.to_string(), params, next_page: next.next_page }))
+}
+
 pub fn build_api() -> Result<ApiDescription<C>, String> {
     let mut api = ApiDescription::new();
     api.register(h_page).map_err(|e| format!("register: {e}"))?;
+    api.register(h_wide).map_err(|e| format!("register: {e}"))?;
     Ok(api)
+}
+
+/// one request / response on the keep-alive connection (None: harness trouble, counted)
+fn exchange(rep: &mut Report, conn: &mut Option<Conn>, addr: std::net::SocketAddr, target: &str, uid: u64) -> Option<vmon::client::Resp> {
+    if conn.is_none() {
+        match Conn::connect(addr) {
+            Ok(c) => {
+                rep.count("connections", 1);
+                *conn = Some(c)
+            }
+            Err(e) => {
+                rep.inconclusive(&format!("connect: {}", e.kind()));
+                return None;
+            }
+        }
+    }
+    let cn = conn.as_mut().unwrap();
+    if let Err(e) = cn.send(&Req::new("GET", target).uid(uid).encode()) {
+        rep.inconclusive(&format!("send: {}", e.kind()));
+        *conn = None;
+        return None;
+    }
+    match cn.read_response(false) {
+        Ok(r) => {
+            if r.wants_close() {
+                *conn = None;
+            }
+            Some(r)
+        }
+        Err(vmon::client::ReadErr::Malformed(why, b)) => {
+            rep.violate("C14:response-not-valid-http", json!({"target": target, "why": why, "bytes": show(&String::from_utf8_lossy(&b[..b.len().min(400)]))}));
+            *conn = None;
+            None
+        }
+        Err(e) => {
+            let s = format!("{e:?}");
+            rep.inconclusive(&format!("read: {}", s.split('(').next().unwrap_or("")));
+            *conn = None;
+            None
+        }
+    }
+}
+
+/// first page of /c14/wide, then the page its own token names: the token the
+/// server issued must be accepted back and yield the same selector
+fn wide_sequence(rep: &mut Report, conn: &mut Option<Conn>, addr: std::net::SocketAddr, seed: u64, rng: &mut Rng, ctx: &Value, out: &mut Vec<LiveSeen>) {
+    let k = rng.below(1 << 20) as u32;
+    let want = wide_selector_for(seed, k);
+    let want_text = serde_json::to_string(&want).unwrap_or_default();
+    let beyond = want.id > u64::MAX as u128 || want.offset < i64::MIN as i128 || want.offset > u64::MAX as i128;
+    let class = format!("wide-selector|{}", if beyond { "beyond-64-bit" } else { "within-64-bit" });
+    let uid1 = vmon::evlog::next_uid();
+    let t1 = format!("/c14/wide?min={k}&prefix={seed}");
+    let Some(r1) = exchange(rep, conn, addr, &t1, uid1) else { return };
+    rep.eval(format!("{class}|first|status-{}", r1.status));
+    out.push(LiveSeen { uid: uid1, status: r1.status, handler: if r1.status == 200 { Some(true) } else { None }, what: format!("{class}|first") });
+    let tok = r1.json().and_then(|b| b["next_page"].as_str().map(str::to_string));
+    let Some(tok) = tok else {
+        // not issuing is allowed by the text (only: never issue what will be refused), but never a crash
+        rep.count(&format!("wide-selector-token-not-issued:status-{}", r1.status), 1);
+        return;
+    };
+    let uid2 = vmon::evlog::next_uid();
+    let t2 = format!("/c14/wide?page_token={}", pct(tok.as_bytes()));
+    let Some(r2) = exchange(rep, conn, addr, &t2, uid2) else { return };
+    rep.eval(format!("{class}|next|status-{}", r2.status));
+    out.push(LiveSeen { uid: uid2, status: r2.status, handler: if r2.status == 200 { Some(true) } else { None }, what: format!("{class}|next") });
+    let wit = |extra: Value| json!({"case": ctx, "first_request": t1, "second_request": t2, "token": tok, "selector_issued": want_text,
+        "status": r2.status, "body": show(&String::from_utf8_lossy(&r2.body)), "detail": extra});
+    if r2.status != 200 {
+        rep.violate("C14:server-issued-token-refused-over-the-wire", wit(json!(null)));
+        return;
+    }
+    let b = r2.json();
+    let which = b.as_ref().and_then(|b| b["which"].as_str().map(str::to_string));
+    let params = b.as_ref().and_then(|b| b["params"].as_str().map(str::to_string));
+    if which.as_deref() != Some("next") {
+        rep.violate("C14:token-routed-as-first-page", wit(json!({"which": which})));
+    } else if params.as_deref() != Some(want_text.as_str()) {
+        // compared as JSON text: both sides are serde_json::to_string of the same type
+        rep.violate("C14:token-yields-different-selector-over-the-wire", wit(json!({"got": params})));
+    } else {
+        rep.count("wire-round-trips-equal:128-bit-selector", 1);
+    }
 }
 
 pub const RULE_LIVE: &str = "a paginated endpoint (Query<PaginationParams<Scan, Selector>>) echoing rqctx.page_limit() and the page \
      kind; limit strings {absent, 1, 2, 9999, 10000, 10001, 2^32-1, random in range} -> min(n, 10000) / 100; {0, -1, abc, 1.5, -0, 00} -> \
      4xx without handler entry; {2^32, 10^20, empty, +5, 007, blanks, 1e3, 0x10} -> 4xx or a clamped 200 but never 5xx; each on first \
      pages and with a valid token (incl. the token the server itself issued); definitely-malformed tokens -> 4xx and no handler \
-     entry; random single-byte mutations -> 4xx or next page, never 5xx / first page; class = (page kind, limit string class or token \
+     entry; random single-byte mutations -> 4xx or next page, never 5xx / first page; a second endpoint whose selector holds u128/i128 values around and \
+     beyond the 64-bit range: the token it issues is followed and must be accepted with the same selector; class = (page kind, limit string class or token \
      family, status)";
 
 const LIMITS_VALID: &[&str] = &["1", "2", "9999", "10000", "10001", "4294967295", "100", "50000"];
@@ -841,6 +1075,10 @@ fn live_client(rep: &mut Report, addr: std::net::SocketAddr, seed: u64, shard: u
     for c in first..first + cases {
         let mut rng = Rng::derive(seed, "c14-live", shard, c);
         let ctx = json!({"seed": seed, "shard": shard, "case": c, "engine": "c14-live"});
+        if rng.chance(1, 16) {
+            wide_sequence(rep, &mut conn, addr, seed, &mut rng, &ctx, &mut out);
+            continue;
+        }
         let uid = vmon::evlog::next_uid();
         // own valid token
         let near_bound = rng.chance(1, 6);
@@ -851,7 +1089,7 @@ fn live_client(rep: &mut Report, addr: std::net::SocketAddr, seed: u64, shard: u
         } else {
             SelStr { last: any_string(&mut rng).0.chars().take(40).collect() }
         };
-        let own_tok = b64url(token_json(&json!("v1"), &serde_json::to_value(&own_sel).unwrap()).as_bytes());
+        let own_tok = b64url(token_json(&json!("v1"), &serde_json::to_string(&own_sel).unwrap()).as_bytes());
         // page kind
         let (page_kind, tokq, want_sel): (&str, Option<String>, Option<String>) = match rng.below(4) {
             0 | 1 => ("first", None, None),
@@ -913,11 +1151,11 @@ fn live_client(rep: &mut Report, addr: std::net::SocketAddr, seed: u64, shard: u
             }
             7 | 8 => {
                 // definitely malformed token
-                let sj = serde_json::to_value(&own_sel).unwrap();
+                let sj = serde_json::to_string(&own_sel).unwrap();
                 let good = token_json(&json!("v1"), &sj);
                 let (fam, t): (&str, String) = match rng.below(9) {
                     0 => ("wrong-version", b64url(token_json(rng.pick(&[json!("v2"), json!("V1"), json!(1), json!(null)]), &sj).as_bytes())),
-                    1 => ("wrong-shape", b64url(token_json(&json!("v1"), rng.pick(&SelStr::wrong_shapes())).as_bytes())),
+                    1 => ("wrong-shape", b64url(token_json(&json!("v1"), &rng.pick(&SelStr::wrong_shapes()).to_string()).as_bytes())),
                     2 => ("wrong-shape", b64url(rng.pick(&["[]", "{}", "null", "{\"v\":\"v1\"}"]).as_bytes())),
                     3 => {
                         let n = 1 + rng.usize(50);
